@@ -621,6 +621,7 @@ type Contract struct {
 	Opaque     bool
 	SkipSafe   map[string]bool
 	NoInline   bool
+	Sweep      bool // implicit contract of the zero-annotation safety sweep
 }
 
 type Axiom struct {
